@@ -28,8 +28,8 @@ Inductive result :=
 | RList (l : list value)   (* an array, given by its contents *)
 | RAbsent                  (* a read past the end: there is no such element *)
 | RDone                    (* a store was performed *)
-| RErr                     (* runtime error *)
-| RPanic                   (* a crash (sort on an array that holds a function) *)
+| RErr                     (* runtime error (also: sort on an array that holds a function) *)
+| RPanic                   (* a crash; never produced by the ideal list nor (Props/C16 methods_total) by a native *)
 | RUnsupp                  (* a comparison outside the modelled fragment of ParseFloat *)
 | ROther.                  (* anything else; never produced by the ideal list *)
 
@@ -119,7 +119,7 @@ Definition ideal_step (l : list value) (o : op) : list value * result :=
   | SetAt f v => ideal_set l (f_trunc_int64 f) v
   | Length => (l, RVal (VNum (f_of_Z (Z.of_nat (length l)))))
   | Contains x => (l, ideal_contains x l)
-  | Sort => (l, if forallb copyable l then RList (ideal_sort l) else RPanic)
+  | Sort => (l, if forallb copyable l then RList (ideal_sort l) else RErr)
   end.
 
 Fixpoint ideal_run (l : list value) (os : list op) : list value * list result :=
